@@ -40,11 +40,33 @@ class TypeTok(object):
         return '<type %s>' % self.name
 
 
+class AbsObj(object):
+    """an abstract object supplied by a rule: `length` answers len(), `items` answers obj[i] for constant i, `attrs` answers obj.name,
+    `methods` maps a method name to a Python callable(obj, args, kwargs) -> value. Anything else is Undecided."""
+    def __init__(self, name, length=None, items=None, attrs=None, methods=None):
+        self.name = name
+        self.length = length
+        self.items = items or {}
+        self.attrs = attrs or {}
+        self.methods = methods or {}
+
+    def __repr__(self):
+        return '<%s>' % (self.name,)
+
+
 class Closure(object):
     def __init__(self, node, env, interp):
         self.node = node
         self.env = env
         self.interp = interp
+
+
+class _Break(Exception):
+    pass
+
+
+class _Continue(Exception):
+    pass
 
 
 class _Return(Exception):
@@ -65,12 +87,26 @@ class Interp(object):
         self.kind_types = kind_types
         self.steps = steps
 
-    def call_function(self, node, args, env=None):
+    def call_function(self, node, args, env=None, kwargs=None):
         env = dict(env or {})
         params = [a.arg for a in node.args.args]
-        if len(args) != len(params):
+        kwargs = dict(kwargs or {})
+        if len(args) > len(params) and not node.args.vararg:
             raise Undecided('arity mismatch calling %s' % node.name)
-        env.update(zip(params, args))
+        bound = dict(zip(params, args))
+        if node.args.vararg:
+            bound[node.args.vararg.arg] = tuple(args[len(params):])
+        defaults = dict(zip(params[len(params) - len(node.args.defaults):], node.args.defaults))
+        for p_ in params[len(args):]:
+            if p_ in kwargs:
+                bound[p_] = kwargs.pop(p_)
+            elif p_ in defaults:
+                bound[p_] = self.expr(defaults[p_], env)
+            else:
+                raise Undecided('arity mismatch calling %s' % node.name)
+        if kwargs:
+            raise Undecided('unexpected keyword arguments calling %s' % node.name)
+        env.update(bound)
         try:
             self.block(node.body, env)
         except _Return as r:
@@ -104,9 +140,35 @@ class Interp(object):
             else:
                 self.block(st.orelse, env)
         elif isinstance(st, ast.For):
+            broke = False
             for x in self.iterate(self.expr(st.iter, env)):
                 self.assign(st.target, x, env)
-                self.block(st.body, env)
+                try:
+                    self.block(st.body, env)
+                except _Break:
+                    broke = True
+                    break
+                except _Continue:
+                    continue
+            if not broke:
+                self.block(st.orelse, env)
+        elif isinstance(st, ast.While):
+            broke = False
+            while self.truth(self.expr(st.test, env)):
+                self.tick()
+                try:
+                    self.block(st.body, env)
+                except _Break:
+                    broke = True
+                    break
+                except _Continue:
+                    continue
+            if not broke:
+                self.block(st.orelse, env)
+        elif isinstance(st, ast.Break):
+            raise _Break()
+        elif isinstance(st, ast.Continue):
+            raise _Continue()
         elif isinstance(st, ast.FunctionDef):
             env[st.name] = Closure(st, env, self)
         elif isinstance(st, ast.Raise):
@@ -149,6 +211,10 @@ class Interp(object):
     def truth(self, v):
         if isinstance(v, (bool, int, list, tuple, range)) or v is None:
             return bool(v)
+        if isinstance(v, str):
+            return bool(v)
+        if isinstance(v, AbsObj):
+            return True if v.length is None else v.length > 0
         raise Undecided('truth value of %r' % (v,))
 
     def expr(self, e, env):
@@ -171,6 +237,16 @@ class Interp(object):
             d = ast.unparse(e)
             if d in env:
                 return env[d]             # a field of an abstract object, supplied by the rule (e.g. 'self.ndim')
+            try:
+                base = self.expr(e.value, env)
+            except Undecided:
+                base = None
+            if isinstance(base, AbsObj):
+                if e.attr in base.attrs:
+                    return base.attrs[e.attr]
+                if e.attr in base.methods:
+                    return ('method', base, e.attr)
+                raise Undecided('attribute %s of %r' % (e.attr, base))
             if d in self.ext:
                 return ('builtin', d)
             if d in ('np.integer', 'np.ndarray'):
@@ -196,6 +272,12 @@ class Interp(object):
                     return c[lo:hi:stp]
                 raise Undecided('slice of %r' % (c,))
             i = self.expr(e.slice, env)
+            if isinstance(c, AbsObj):
+                if i in c.items:
+                    return c.items[i]
+                if isinstance(i, int) and c.length is not None and not (-c.length <= i < c.length):
+                    raise Raised('IndexError')
+                raise Undecided('item %r of %r' % (i, c))
             if isinstance(c, (list, tuple)) and isinstance(i, int):
                 try:
                     return c[i]
@@ -262,6 +344,11 @@ class Interp(object):
             return r if isinstance(op, ast.Eq) else not r
         if isinstance(a, int) and isinstance(b, int):
             return {ast.Lt: a < b, ast.LtE: a <= b, ast.Gt: a > b, ast.GtE: a >= b}.get(type(op))
+        if isinstance(op, (ast.Is, ast.IsNot)) and (isinstance(a, AbsObj) or isinstance(b, AbsObj)):
+            r = a is b
+            return r if isinstance(op, ast.Is) else not r
+        if isinstance(op, (ast.Eq, ast.NotEq)) and isinstance(a, str) and isinstance(b, str):
+            return (a == b) if isinstance(op, ast.Eq) else (a != b)
         if isinstance(op, (ast.Is, ast.IsNot)) and (a is None or b is None or isinstance(a, Kind) or isinstance(b, Kind)):
             r = (a is b) or (isinstance(a, Kind) and a == b)
             return r if isinstance(op, ast.Is) else not r
@@ -316,7 +403,9 @@ class Interp(object):
                 args.append(self.expr(a, env))
         kwargs = {k.arg: self.expr(k.value, env) for k in e.keywords}
         if isinstance(f, Closure):
-            return f.interp.call_function(f.node, args, f.env)
+            return f.interp.call_function(f.node, args, f.env, kwargs)
+        if isinstance(f, tuple) and len(f) == 3 and f[0] == 'method' and isinstance(f[1], AbsObj):
+            return f[1].methods[f[2]](f[1], args, kwargs)
         if isinstance(f, TypeTok):
             if f.name in ('list', 'tuple') and len(args) == 1:
                 v = self.iterate(args[0])
@@ -331,6 +420,10 @@ class Interp(object):
             if n in self.ext:
                 return self.ext[n](args, kwargs)
             if n == 'len':
+                if isinstance(args[0], AbsObj):
+                    if args[0].length is None:
+                        raise Undecided('len of %r' % (args[0],))
+                    return args[0].length
                 return len(args[0])
             if n == 'range':
                 return list(range(*args))
